@@ -5,6 +5,7 @@ TIER="${1:-quick}"
 cd /repo && [ -z "$(git status --porcelain)" ] || { echo "/repo not clean"; exit 3; }
 for d in /verif/seeded/*/; do
   n=$(basename $d)
+  grep -q '"status": "superseded"' $d/meta.json 2>/dev/null && { echo "$n: SUPERSEDED (skipped)"; continue; }
   # the owning property's check first, then every check named in detected_by
   ids=$(python3 -c "
 import json,re
